@@ -44,6 +44,12 @@ pub const CL_CONFIGS: &[&[&str]] = &[
     &["\u{b}N"],
     &["N", "N\u{0}"],
     &["N\u{7f}", "N"],
+    // comma-separated members inside one field line: differing members are as bad as differing field lines
+    &["N, M"],
+    &["N,M"],
+    &["N", "N, M"],
+    &["M, N"],
+    &["N, "],
 ];
 pub const TES: &[&[&str]] = &[
     &[],
@@ -53,6 +59,14 @@ pub const TES: &[&[&str]] = &[
     &["identity, chunked"],
     &["gzip, chunked"],
     &["gzip", "chunked"],
+    // list grammar: no blank after the comma, blanks before it, a tab, empty members, an empty second field line
+    &["identity,chunked"],
+    &["identity ,chunked"],
+    &["identity,\tchunked"],
+    &["chunked,"],
+    &[",chunked"],
+    &["chunked , "],
+    &["chunked", ""],
 ];
 pub const N_EXTRA: u8 = 3;
 pub const N_SEG: u8 = 3;
@@ -131,7 +145,7 @@ fn classify_cl(cfg: &[&str], n: usize) -> (ClClass, Vec<String>) {
     for (t, v) in cfg.iter().zip(&vals) {
         match *t {
             "N" | "M" | "18446744073709551615" => nums.push(v.parse::<u64>().unwrap()),
-            "+N" | "0N" | "N, N" => {
+            "+N" | "0N" | "N, N" | "N, " => {
                 ambiguous = true;
                 nums.push(n as u64);
             }
@@ -167,7 +181,7 @@ fn gzip(data: &[u8]) -> Vec<u8> {
 impl Property for C03 {
     type Case = Case;
     const ID: &'static str = "C03";
-    const RULE: &'static str = "cases drawn from (thorough: all of) the product method{8} x status{16} x Content-Length configuration{28} x Transfer-Encoding{7} x \
+    const RULE: &'static str = "cases drawn from (thorough: all of) the product method{8} x status{16} x Content-Length configuration{33} x Transfer-Encoding{14} x \
 Content-Encoding{2} x bytes after the frame{3} x segmentation{3} x payload length{2}; the reference model (RFC 9112 6.3) decides the governing framing and the builder lays the body \
 out for it; outcome (Ok/Err and bytes) compared exactly. non-trivial = two framing signals in conflict, or a bodiless method/status carrying framing or coding headers, or an invalid/disagreeing \
 Content-Length; distinct by case index";
